@@ -43,6 +43,12 @@ class EvalMixin:
             return (('ghostmap', 'ghost:' + name, srt, t), 'ghostmap')
         c = self.const(name)
         if c is not None: return c
+        for g, gt in self.p.globals.items():
+            if self.shortfn(g) == name:
+                a = self.global_addr(g, gt)
+                if isinstance(a, Loc) and a.arrlen is None:
+                    return (self.load_loc(env['st'], a, facts=False), gt)
+                return (a, '*' + gt)
         raise Unsupported('unknown identifier %r in contract' % name)
 
     def const(self, name):
